@@ -22,6 +22,41 @@ CODECS = {
 CODEC_NAMES = {0: "UNCOMPRESSED", 1: "SNAPPY", 2: "GZIP", 3: "LZO", 4: "BROTLI", 5: "LZ4", 6: "ZSTD", 7: "LZ4_RAW"}
 
 
+def _tv_py(v):
+    """generic thrift value tree printed by pqref -> Python: struct -> {id: value}, list -> [..], scalars"""
+    tag = v[0]
+    if tag == b"r":
+        return {i: _tv_py(x) for i, x in v[1]}
+    if tag == b"l":
+        return [_tv_py(x) for x in v[2]]
+    if tag == b"b":
+        return bool(v[1])
+    return v[1]
+
+
+LOGICAL_MEMBERS = {1: "STRING", 2: "MAP", 3: "LIST", 4: "ENUM", 5: "DECIMAL", 6: "DATE", 7: "TIME", 8: "TIMESTAMP", 10: "INTEGER",
+                   11: "UNKNOWN", 12: "JSON", 13: "BSON", 14: "UUID"}
+UNITS = {1: "MILLIS", 2: "MICROS", 3: "NANOS"}
+
+
+def logical_dict(tree):
+    """LogicalType union -> {"kind": name, + the member's fields by name}"""
+    d = _tv_py(tree)
+    if not isinstance(d, dict) or len(d) != 1:
+        return {"kind": "malformed", "raw": repr(d)[:80]}
+    (mid, body), = d.items()
+    out = {"kind": LOGICAL_MEMBERS.get(mid, "member-%s" % mid)}
+    if out["kind"] in ("TIME", "TIMESTAMP") and isinstance(body, dict):
+        out["utc"] = body.get(1)
+        u = body.get(2)
+        out["unit"] = UNITS.get(next(iter(u)), "?") if isinstance(u, dict) and len(u) == 1 else None
+    elif out["kind"] == "INTEGER" and isinstance(body, dict):
+        out["bits"], out["signed"] = body.get(1), body.get(2)
+    elif out["kind"] == "DECIMAL" and isinstance(body, dict):
+        out["scale"], out["precision"] = body.get(1), body.get(2)
+    return out
+
+
 def _txt(x):
     return x.decode("utf-8", "replace") if isinstance(x, (bytes, bytearray)) else str(x)
 
@@ -86,7 +121,8 @@ class Fmt:
             return (_txt(r[0]), _txt(r[1]))
         leaves = [{"name": l[0].decode("utf-8", "replace"), "type": l[1], "tlen": l[2], "maxdef": l[3],
                    "conv": (l[4][0] if l[4] else None), "logical": (tuple(l[5]) if l[5] else None),
-                   "scale": (l[6][0] if len(l) > 6 and l[6] else None), "precision": (l[7][0] if len(l) > 7 and l[7] else None)} for l in r[1]]
+                   "scale": (l[6][0] if len(l) > 6 and l[6] else None), "precision": (l[7][0] if len(l) > 7 and l[7] else None),
+                   "logical_tree": (logical_dict(l[8][0]) if len(l) > 8 and l[8] else None)} for l in r[1]]
         rgs = [[[(None if c == [] else c) for c in col] for col in rg] for rg in r[2]]
         return ("ok", leaves, rgs)
 
@@ -403,3 +439,107 @@ def lfile_gallina(lf):
         rgs.append(_g_list(chunks))
     cb = lf.get("created_by")
     return "{| l_leaves := %s; l_rgs := %s; l_created_by := %s |}" % (leaves, _g_list(rgs), "None" if cb is None else "Some %s" % _g_bytes(cb.encode()))
+
+
+# ---------------------------------------------------------------------------------------------
+# glue: the ANNOTATIONS a written column must carry - everything in SchemaElement that changes what an
+# independent reader RETURNS for the stored physical values (LogicalTypes.md)
+
+CONV = {"UTF8": 0, "DECIMAL": 5, "DATE": 6, "TIME_MILLIS": 7, "TIME_MICROS": 8, "TIMESTAMP_MILLIS": 9, "TIMESTAMP_MICROS": 10,
+        "UINT_8": 11, "UINT_16": 12, "UINT_32": 13, "UINT_64": 14, "INT_8": 15, "INT_16": 16, "INT_32": 17, "INT_64": 18, "JSON": 19, "BSON": 20}
+# converted type <-> logical type that says the same (LogicalTypes.md, "compatibility" tables)
+CONV_OF_LOGICAL = {("STRING",): 0, ("JSON",): 19, ("BSON",): 20, ("DATE",): 6,
+                   ("TIME", "MILLIS"): 7, ("TIME", "MICROS"): 8, ("TIMESTAMP", "MILLIS"): 9, ("TIMESTAMP", "MICROS"): 10,
+                   ("INTEGER", 8, True): 15, ("INTEGER", 16, True): 16, ("INTEGER", 32, True): 17, ("INTEGER", 64, True): 18,
+                   ("INTEGER", 8, False): 11, ("INTEGER", 16, False): 12, ("INTEGER", 32, False): 13, ("INTEGER", 64, False): 14}
+
+
+def annotation_problems(s, leaf, times="int64"):
+    """pandas Series (categorical: its labels decide) + decoded leaf -> list of problem strings"""
+    import pandas as pd
+    dt = s.dtype
+    if isinstance(dt, pd.CategoricalDtype):
+        return annotation_problems(pd.Series(s.cat.categories), leaf, times)
+    name, t, conv, lg = leaf["name"], leaf["type"], leaf["conv"], leaf.get("logical_tree")
+    probs = []
+
+    def bad(msg):
+        probs.append("column %s: %s (type %s, converted_type %s, logicalType %s)" % (name, msg, t, conv, lg))
+
+    # 1. logicalType and converted_type, when both present, must say the same thing
+    if lg is not None:
+        k = lg["kind"]
+        if k == "malformed":
+            bad("logicalType is not a one-member union")
+        key = {"TIME": (k, lg.get("unit")), "TIMESTAMP": (k, lg.get("unit")), "INTEGER": (k, lg.get("bits"), lg.get("signed"))}.get(k, (k,))
+        implied = CONV_OF_LOGICAL.get(key)
+        if k in ("TIME", "TIMESTAMP") and lg.get("unit") == "NANOS":
+            implied = None          # no converted type exists for nanoseconds
+        # (a converted type next to isAdjustedToUTC=false is written by several writers for old readers and is overridden
+        #  by the logical type for every reader that knows it: tolerated; the flag itself is compared with the frame below)
+        if implied is not None and conv is not None and conv != implied:
+            bad("converted_type disagrees with logicalType (which implies %s)" % implied)
+        if implied is None and conv is not None and k not in ("DECIMAL", "UNKNOWN", "UUID", "ENUM"):
+            bad("converted_type present although logicalType %s has no converted equivalent" % k)
+    # 2. what the frame column requires
+    kind = getattr(dt, "kind", "O")
+    tzaware = isinstance(dt, pd.DatetimeTZDtype)
+    sdt = str(dt).lower()
+    if tzaware or kind == "M":
+        if t == 3:
+            if conv is not None or lg is not None:
+                bad("INT96 timestamps carry no annotation")
+        else:
+            unit = (dt.unit if tzaware else str(dt)[str(dt).index("[") + 1:-1])
+            want_unit = {"ns": "NANOS", "us": "MICROS", "ms": "MILLIS", "s": "MILLIS"}[unit]
+            if lg is None:
+                if want_unit == "NANOS" or conv != {"MICROS": 10, "MILLIS": 9}[want_unit]:
+                    bad("timestamp column without a TIMESTAMP annotation of unit %s" % want_unit)
+                if not tzaware:
+                    bad("a timezone-naive column needs logicalType TIMESTAMP(isAdjustedToUTC=false); the converted type alone means UTC-adjusted")
+            else:
+                if lg["kind"] != "TIMESTAMP":
+                    bad("timestamp column annotated as %s" % lg["kind"])
+                else:
+                    if lg.get("unit") != want_unit:
+                        bad("TIMESTAMP unit %s, the stored values are %s" % (lg.get("unit"), want_unit))
+                    if bool(lg.get("utc")) != tzaware:
+                        bad("isAdjustedToUTC=%s for a %s column (instants are stored in UTC for every zone)" % (
+                            lg.get("utc"), "timezone-aware (%s)" % dt.tz if tzaware else "timezone-naive"))
+    elif kind == "m":
+        if not (conv == 8 or (lg and lg["kind"] == "TIME" and lg.get("unit") == "MICROS")):
+            bad("timedelta column must be annotated TIME(MICROS)")
+    elif sdt in ("int8", "int16", "uint8", "uint16", "uint32", "uint64", "int32", "int64") and t in (1, 2):
+        signed = not sdt.startswith("u")
+        bits = int(sdt.lstrip("uint"))
+        want = CONV_OF_LOGICAL[("INTEGER", bits, signed)]
+        plain_ok = signed and bits in (32, 64)          # INT32/INT64 without annotation mean signed 32/64
+        if conv is None and lg is None:
+            if not plain_ok:
+                bad("%s column needs the annotation %s" % (sdt, want))
+        else:
+            if conv is not None and conv != want:
+                bad("%s column annotated with converted_type %s, expected %s" % (sdt, conv, want))
+            if lg is not None and not (lg["kind"] == "INTEGER" and lg.get("bits") == bits and bool(lg.get("signed")) == signed):
+                bad("%s column annotated with logicalType %s" % (sdt, lg))
+    elif kind == "f" or kind == "b" or sdt in ("boolean", "float32", "float64"):
+        if conv is not None or lg is not None:
+            bad("%s column must not carry an annotation" % sdt)
+    elif t == 6:
+        vals = [v for v in s.tolist() if v is not None and not (isinstance(v, float) and v != v)]
+        if vals and all(isinstance(v, str) for v in vals):
+            if not (conv == 0 or (lg and lg["kind"] == "STRING")):
+                bad("text column must be annotated UTF8/STRING")
+        elif vals and all(isinstance(v, (bytes, bytearray)) for v in vals):
+            if conv is not None or lg is not None:
+                bad("bytes column must not carry an annotation")
+        elif vals and all(isinstance(v, (dict, list)) for v in vals):
+            if not (conv in (19, 20) or (lg and lg["kind"] in ("JSON", "BSON"))):
+                bad("object column of dicts/lists must be annotated JSON/BSON")
+    if t != 7 and conv == 5:
+        pass
+    if (conv == 5 or (lg and lg["kind"] == "DECIMAL")) and (leaf.get("scale") is None or leaf.get("precision") is None):
+        bad("DECIMAL without scale/precision")
+    if lg and lg["kind"] == "DECIMAL" and (lg.get("scale") != leaf.get("scale") or lg.get("precision") != leaf.get("precision")):
+        bad("DecimalType scale/precision differ from SchemaElement.scale/precision")
+    return probs
